@@ -36,6 +36,8 @@ func init() {
 			{ID: "C11-R10", Title: "Import returns a module object built in that call (shared with C14)", Floor: 2, Run: importersReturnFreshModules},
 			{ID: "C11-R11", Title: "options record into the deferred tables on every path", Floor: 2, Run: optionsRecordUnconditionally},
 			{ID: "C11-R12", Title: "the deny-list and the overrides only grow", Floor: 2, Run: deferredTablesOnlyGrow},
+			{ID: "C11-R13", Title: "the error of Config.init reaches the caller of Eval/EvalCode/Call", Floor: 3, Run: initErrorReachesTheCaller},
+			{ID: "C11-R14", Title: "dotted names are resolved one module per element", Floor: 1, Run: pathDescentAdvances},
 		},
 	})
 }
